@@ -1,4 +1,5 @@
 import TorrentVerif.Proofs.Listing
+import TorrentVerif.Proofs.CreatorsInfo
 /-
   C08 — the info dictionary depends only on the payload, not on where the payload lives or in
   which order the operating system enumerates directories.  This file covers the listing part:
@@ -91,5 +92,103 @@ theorem traverse_sorted (enum : List (Bytes × Impl.FTree) → List (Bytes × Im
 /-- met by: backwards enumeration of the example tree -/
 example : Spec.KeysAscending (Impl.traverse List.reverse exTree) :=
   traverse_sorted List.reverse List.reverse_perm exTree exTree_wellNamed
+
+end TorrentVerif.Props.C08
+
+/-! ### whole metafiles (creators of `Model/Creators.lean`) -/
+namespace TorrentVerif.Props.C08
+open TorrentVerif TorrentVerif.Toy TorrentVerif.Ex.G7
+
+/-- The `info` value written by each of the five creators (hence its encoding and the
+    info-hash under any hash function) is the same for any two option records that agree on
+    `comment`, `private`, `source`, the piece length and the root name, for any two enumeration
+    orders, and — for the v1 creator, whose listing sorts full path strings — for any two
+    locations `pre`, `pre'` of the content root. Trackers, web seeds, http seeds, `created by`
+    and the creation date are not arguments of it. (Content tree with non-empty, `/`-free,
+    distinct names; both sides fail together where Python raises.) -/
+theorem info_factors (o o' : CreateOpts) (hc : o.comment = o'.comment) (hp : o.priv = o'.priv)
+    (hsrc : o.source = o'.source) (hpl : o.pieceLength = o'.pieceLength) (hn : o.name = o'.name)
+    (H H1 : Bytes → Bytes) (B hs : Nat) (align : Bool)
+    (enum1 enum1' : List (List (Bytes × Bytes)) → List (List (Bytes × Bytes)))
+    (h1 : ∀ l, (enum1 l).Perm l) (h1' : ∀ l, (enum1' l).Perm l)
+    (enum enum' : List (Bytes × Impl.FTree) → List (Bytes × Impl.FTree))
+    (h2 : ∀ l, (enum l).Perm l) (h2' : ∀ l, (enum' l).Perm l) (pre pre' : Bytes)
+    (t : Node) (hwn : Spec.WellNamed t) :
+    (Impl.createV1 o align H1 enum1 pre t).map (fun x => x.1.get? K.info)
+      = (Impl.createV1 o' align H1 enum1' pre' t).map (fun x => x.1.get? K.info) ∧
+    (Impl.createV2Class o H B hs enum t).map (fun x => x.1.get? K.info)
+      = (Impl.createV2Class o' H B hs enum' t).map (fun x => x.1.get? K.info) ∧
+    (Impl.createHybridClass o H H1 B hs enum t).map (fun x => x.1.get? K.info)
+      = (Impl.createHybridClass o' H H1 B hs enum' t).map (fun x => x.1.get? K.info) ∧
+    (∀ hybrid, (Impl.createAsm hybrid o H H1 B hs enum t).map (fun x => x.1.get? K.info)
+      = (Impl.createAsm hybrid o' H H1 B hs enum' t).map (fun x => x.1.get? K.info)) := by
+  refine ⟨createV1_info o o' hc hp hsrc hpl hn align H1 enum1 enum1' h1 h1' pre pre' t hwn,
+    createV2Class_info o o' hc hp hsrc hpl hn H B hs enum enum' h2 h2' t hwn,
+    createHybridClass_info o o' hc hp hsrc hpl hn H H1 B hs enum enum' h2 h2' t hwn, ?_⟩
+  intro hybrid
+  cases hybrid
+  · exact createAsm_false_info o o' hc hp hsrc hpl hn H H1 B hs enum enum' h2 h2' t hwn
+  · exact createAsm_true_info o o' hc hp hsrc hpl hn H H1 B hs enum enum' h2 h2' t hwn
+
+/-- met by: two option records with different trackers, seeds, creator string and clock but the
+    same comment / private / source / piece length / name; the example tree enumerated in
+    stored and in reverse order, rooted at `r` and at `/x/r` -/
+example : (Impl.createAsm true exOpts toyH toyH1 2 1 id exTree).map (fun x => x.1.get? K.info)
+      = (Impl.createAsm true exOpts' toyH toyH1 2 1 List.reverse exTree).map (fun x => x.1.get? K.info) ∧
+    (Impl.createV1 exOpts true toyH1 id [114] exTree).map (fun x => x.1.get? K.info)
+      = (Impl.createV1 exOpts' true toyH1 List.reverse [47, 120, 47, 114] exTree).map
+          (fun x => x.1.get? K.info) :=
+  have h := info_factors exOpts exOpts' rfl rfl rfl rfl rfl toyH toyH1 2 1 true id List.reverse
+    (fun _ => .refl _) List.reverse_perm id List.reverse (fun _ => .refl _) List.reverse_perm
+    [114] [47, 120, 47, 114] exTree exTree_wellNamed
+  ⟨h.2.2.2 true, h.1⟩
+
+/-- Two runs of the same creator on the same content with the same options at different times
+    differ at most in the `creation date` entry: the second metafile value is the first with
+    the value of that one top-level entry replaced (`Spec.setDate`: same keys, same order, every
+    other value identical), the bytes written are its encoding, and a run fails iff the other
+    does. Holds for all five creators, every content tree and every option record. -/
+theorem only_date_differs (o : CreateOpts) (date' : Int) (H H1 : Bytes → Bytes) (B hs : Nat)
+    (align : Bool) (enum1 : List (List (Bytes × Bytes)) → List (List (Bytes × Bytes)))
+    (enum : List (Bytes × Impl.FTree) → List (Bytes × Impl.FTree)) (pre : Bytes) (t : Node) :
+    Impl.createV1 { o with creationDate := date' } align H1 enum1 pre t
+      = (Impl.createV1 o align H1 enum1 pre t).map
+          (fun x => (Spec.setDate date' x.1, Impl.encode (Spec.setDate date' x.1))) ∧
+    Impl.createV2Class { o with creationDate := date' } H B hs enum t
+      = (Impl.createV2Class o H B hs enum t).map
+          (fun x => (Spec.setDate date' x.1, Impl.encode (Spec.setDate date' x.1))) ∧
+    Impl.createHybridClass { o with creationDate := date' } H H1 B hs enum t
+      = (Impl.createHybridClass o H H1 B hs enum t).map
+          (fun x => (Spec.setDate date' x.1, Impl.encode (Spec.setDate date' x.1))) ∧
+    (∀ hybrid, Impl.createAsm hybrid { o with creationDate := date' } H H1 B hs enum t
+      = (Impl.createAsm hybrid o H H1 B hs enum t).map
+          (fun x => (Spec.setDate date' x.1, Impl.encode (Spec.setDate date' x.1)))) :=
+  ⟨createV1_date o date' align H1 enum1 pre t, createV2Class_date o date' H B hs enum t,
+   createHybridClass_date o date' H H1 B hs enum t,
+   fun hybrid => createAsm_date hybrid o date' H H1 B hs enum t⟩
+
+/-- met by: the example options and tree, a later clock value -/
+example : Impl.createV2Class { exOpts with creationDate := 1800000000 } toyH 2 1 id exTree
+    = (Impl.createV2Class exOpts toyH 2 1 id exTree).map
+        (fun x => (Spec.setDate 1800000000 x.1, Impl.encode (Spec.setDate 1800000000 x.1))) :=
+  (only_date_differs exOpts 1800000000 toyH toyH1 2 1 false id id [114] exTree).2.1
+
+/-- `Spec.setDate` touches nothing but the value under `creation date`: every other top-level
+    lookup is unchanged, and the list of keys is the same. -/
+theorem setDate_only_date (date' : Int) (kvs : Dict) :
+    keys (match Spec.setDate date' (.dict kvs) with | .dict l => l | _ => []) = keys kvs ∧
+    ∀ k, k ≠ K.creationDate → (Spec.setDate date' (.dict kvs)).get? k = (BVal.dict kvs).get? k := by
+  constructor
+  · rw [setDate_dict]
+    simp only [keys, List.map_map]
+    apply List.map_congr_left
+    intro kv _
+    exact gDate_fst date' kv
+  · intro k hk
+    rw [setDate_dict]
+    exact dictGet_map_gDate date' kvs k hk
+
+example : (Spec.setDate 5 (.dict [(K.announce, .str [97]), (K.creationDate, .int 1), (K.info, .dict [])]))
+    = .dict [(K.announce, .str [97]), (K.creationDate, .int 5), (K.info, .dict [])] := by decide
 
 end TorrentVerif.Props.C08
